@@ -96,6 +96,7 @@ pub fn gen(ctx: &Ctx) {
     out.rule = "case = (registration sequence, list of lookups). Exhaustive: every single pattern of <=3 segments over {a,b,:p,:q,*,**,''} and every ordered pair \
                 (thorough: triple) of patterns of <=2 segments over {a,:p,*,**} (thorough: <=3 / 5 symbols), each looked up with every path of <=3 segments over {a,b,c,''} \
                 with and without leading slash; random: tables of 1..40 routes over 9 std/custom methods with shuffled order, re-registrations, late-failing parameterised candidates; path segments and parameter values include '#', '?', ';', '%', ':' '*' and non-ASCII bytes (all ordinary bytes for the router). \
+                large literal tables (21..90 all-literal registrations from a pool of 3..24 paths, so with many re-registrations); deep tables (patterns and paths of 12..22 segments with parameters at positions 14..20). \
                 non-trivial = at least one lookup selects a non-fallback route".into();
     let paths: Vec<String> = {
         let mut v = Vec::new();
@@ -189,6 +190,63 @@ pub fn gen(ctx: &Ctx) {
             qs.push(enc(m, &p));
         }
         emit(&mut out, &regs.join(";"), &qs.join(";"), "random-table");
+    }
+    // large literal tables: 21..90 registrations of all-literal paths in one method bucket, drawn from a small pool so that most
+    // paths are registered several times (the sort behind the literal fast path only reorders slices of more than 20 elements;
+    // seed C11-g collapsed duplicates after an unstable sort)
+    let nbig = if ctx.thorough { 400 } else { 60 };
+    for _ in 0..nbig {
+        let npool = rng.range(3, 24) as usize;
+        let pool: Vec<String> = (0..npool).map(|i| {
+            let depth = rng.range(1, 3) as usize;
+            let segs: Vec<String> = (0..depth).map(|d| if d == 0 { format!("p{}", i) } else { rng.pick(&["a", "b", "users", "v1", "zz"]).to_string() }).collect();
+            format!("{}{}", if rng.chance(1, 2) { "/" } else { "" }, segs.join("/"))
+        }).collect();
+        let m = *rng.pick(&methods);
+        let nr = rng.range(21, 90) as usize;
+        let mut regs = Vec::new();
+        for _ in 0..nr {
+            let p = rng.pick(&pool).clone();
+            // the same literal with or without its leading slash is the same route
+            let p = if rng.chance(1, 5) { if let Some(q) = p.strip_prefix('/') { q.to_string() } else { format!("/{p}") } } else { p };
+            regs.push(enc(m, &p));
+        }
+        if rng.chance(1, 3) { regs.push(enc(m, "/:any")); }
+        let mut qs: Vec<String> = pool.iter().map(|p| enc(m, p)).collect();
+        qs.push(enc(m, "/nope"));
+        emit(&mut out, &regs.join(";"), &qs.join(";"), "large-literal-table");
+    }
+    // deep patterns and paths: 12..22 segments, parameters and wildcards at positions 14..20, paths one or several segments
+    // longer or shorter than the patterns (seed C12-h split the path into a 16-slot table and kept the unsplit tail in slot 16)
+    let ndeep = if ctx.thorough { 600 } else { 80 };
+    for _ in 0..ndeep {
+        let nr = rng.range(1, 5) as usize;
+        let mut regs = Vec::new();
+        let mut pats: Vec<Vec<String>> = Vec::new();
+        for _ in 0..nr {
+            let len = rng.range(12, 22) as usize;
+            let segs: Vec<String> = (0..len).map(|i| {
+                if i + 1 == len && rng.chance(1, 4) { "**".to_string() }
+                else if i >= 13 && rng.chance(1, 2) { format!(":n{}", i) }
+                else if i >= 13 && rng.chance(1, 4) { "*".to_string() }
+                else if rng.chance(1, 10) { format!(":n{}", i) }
+                else { format!("s{}", i % 3) }
+            }).collect();
+            regs.push(enc("0", &format!("/{}", segs.join("/"))));
+            pats.push(segs);
+        }
+        let mut qs = Vec::new();
+        for _ in 0..24 {
+            let base = rng.pick(&pats).clone();
+            let mut segs: Vec<String> = base.iter().enumerate().map(|(i, s)| {
+                if s.starts_with(':') || s == "*" { rng.pick(&["src", "main.rs", "42", "x"]).to_string() }
+                else if s == "**" { ["x/y", "z", "", "a/b/c"][rng.below(4) as usize].to_string() }
+                else if rng.chance(1, 40) { "zz".to_string() } else { format!("s{}", i % 3) }
+            }).collect();
+            match rng.below(5) { 0 => { segs.push("main.rs".into()); } 1 => { segs.push("a".into()); segs.push("b".into()); segs.push("c".into()); } 2 => { segs.pop(); } _ => {} }
+            qs.push(enc("0", &format!("/{}", segs.join("/"))));
+        }
+        emit(&mut out, &regs.join(";"), &qs.join(";"), "deep-table");
     }
     out.finish();
 }
